@@ -1,7 +1,7 @@
 (* C15 — multi-line reassembly keeps every byte, in order, within one stream (action level).
    Only statements, each closed by [exact]; proofs live in Proofs/Join.v and Proofs/K8sMultiline.v.
    join / join_template: Model/Join.v (one state machine; the regexps / template checks are oracle
-   bits carried by the events).  k8s: Model/K8sMultiline.v (the repaired code).
+   bits carried by the events).  k8s: Model/K8sMultiline.v (the repaired code; the cut at max_event_size never splits an escape sequence).
    The processor-level clause (a stream stays on its processor while an action is busy; a
    time-out is delivered only to a busy action) is the hypothesis [busy_ok] here and is discharged
    by the pipeline model. *)
@@ -82,16 +82,17 @@ Proof. exact join_busy_iff_joining. Qed.
 Print Assumptions c15_join_busy_iff_joining.
 
 (* ---- k8s multi-line action (repaired code) ------------------------------------------------------ *)
-(* never panics: max_event_size 0 or >= 4, any split_event_size / cut-off / only_node setting, any
-   sequence of chunks and time-outs, every fragment at least the two quotes (empty ones included) *)
-Theorem c15_k8s_total : forall c xs, kmax_ok c = true -> forallb frag_ok xs = true ->
+(* never panics: EVERY max_event_size (0, 1..3 and negative values included: the cut then keeps
+   nothing), any split_event_size / cut-off / only_node setting, any sequence of chunks and time-outs,
+   every fragment at least the two quotes (empty ones included) *)
+Theorem c15_k8s_total : forall c xs, forallb frag_ok xs = true ->
   is_ok (snd (k_run c kstate0 xs)) = true /\ length (fst (k_run c kstate0 xs)) = length xs.
 Proof. exact k8s_total. Qed.
 Print Assumptions c15_k8s_total.
 
 (* time-out free input: every step is the function k_spec of the chunks of the current line *)
 Theorem c15_k8s_steps_are_spec : forall c xs,
-  kmax_ok c = true -> konly c = false -> no_timeout xs = true -> forallb frag_ok xs = true ->
+  konly c = false -> no_timeout xs = true -> forallb frag_ok xs = true ->
   exists st, k_run c kstate0 xs = (k_spec c [] xs, Ok st).
 Proof. exact k8s_steps_are_spec. Qed.
 Print Assumptions c15_k8s_steps_are_spec.
@@ -107,6 +108,53 @@ Theorem c15_k8s_concat : forall c fs g,
     end.
 Proof. exact k8s_concat. Qed.
 Print Assumptions c15_k8s_concat.
+
+(* ... and for an oversize line with cut_off_event_by_limit ONE passed event that carries the bodies
+   of the chunks p that fitted and then whole tokens of the first chunk u that did not — the prefix
+   of u's body chosen by escapedCutKeep for the limit max_event_size - 3 - len(bodies p): a prefix of
+   the line (nothing that follows the cut is glued on), never longer than the byte limit the code
+   before the repair cut at, and shorter than it by less than one \uXXXX sequence *)
+Theorem c15_k8s_cut_event : forall c fs g p u,
+  Forall (fun f => 2 <= len f) fs ->
+  first_unfit (kmax c) 1 fs = Some (p, u) -> kcut c = true ->
+  final_step c fs g =
+    (APass, 0, Some (QUOTE :: cut_body (kmax c) p u ++ (if ends_nl g then NLESC else []) ++ [QUOTE]), kfield c) /\
+  (exists rest, bodies fs = cut_body (kmax c) p u ++ rest) /\
+  len (bodies p) <= len (cut_body (kmax c) p u) <= Z.max (len (bodies p)) (kmax c - 3) /\
+  (len (bodies p) <= kmax c - 3 -> kmax c - 3 - len (cut_body (kmax c) p u) < 6).
+Proof. exact k8s_cut_event. Qed.
+Print Assumptions c15_k8s_cut_event.
+
+(* the cut function escapedCutKeep, for every string and every limit: it is total and keeps at most
+   min(limit, len s) bytes (the code before the repair kept exactly that many) ... *)
+Theorem c15_k8s_cut_keep_le : forall s limit,
+  exists k, escaped_cut_keep s limit = Ok k /\ 0 <= k <= len s /\ (0 <= limit -> k <= Z.min limit (len s)).
+Proof. exact k8s_cut_keep_le. Qed.
+Print Assumptions c15_k8s_cut_keep_le.
+
+(* ... what it keeps of a valid escaped JSON string is a valid escaped JSON string: no escape
+   sequence (backslash + one byte, backslash u + four hexadecimal digits) is split ... *)
+Theorem c15_k8s_cut_keep_tokens : forall s limit k,
+  escaped_cut_keep s limit = Ok k -> esc_wf s = true -> esc_wf (firstn (Z.to_nat k) s) = true.
+Proof. exact k8s_cut_keep_tokens. Qed.
+Print Assumptions c15_k8s_cut_keep_tokens.
+
+(* ... and it keeps the LONGEST such prefix: fewer than 6 bytes of the limit stay unused and no
+   longer prefix within the limit ends on a token boundary (any s, well tokenised or not) *)
+Theorem c15_k8s_cut_keep_maximal : forall s limit k,
+  escaped_cut_keep s limit = Ok k -> 0 <= limit <= len s ->
+  limit - k < 6 /\ forall j, k < j <= limit -> esc_wf (firstn (Z.to_nat j) s) = false.
+Proof. exact k8s_cut_keep_maximal. Qed.
+Print Assumptions c15_k8s_cut_keep_maximal.
+
+(* end to end: every configuration, time-outs anywhere, only_node or not — when every fragment is a
+   valid escaped JSON string, so is the log field of every event the action passes (joined, cut,
+   untouched) *)
+Theorem c15_k8s_cut_event_wf : forall c xs,
+  forallb frag_ok xs = true -> forallb frag_wf xs = true ->
+  forallb step_wf (fst (k_run c kstate0 xs)) = true.
+Proof. exact k8s_cut_event_wf. Qed.
+Print Assumptions c15_k8s_cut_event_wf.
 
 (* conservation without a limit and without time-outs: bytes out + bytes still buffered = bytes in *)
 Theorem c15_k8s_conservation : forall c, kmax c = 0 ->
@@ -184,11 +232,34 @@ Definition ex_chunks : list kin :=
 Definition ex_kcfg : kcfg := {| kmax := 12; ksplit := 524288; kcut := true; kfield := true; konly := false |}.
 
 Example c15_k8s_nonvacuous :
-  kmax_ok ex_kcfg = true /\ forallb frag_ok ex_chunks = true /\ no_timeout ex_chunks = true /\
+  forallb frag_ok ex_chunks = true /\ no_timeout ex_chunks = true /\
   k_run ex_kcfg kstate0 ex_chunks =
     ([(1, 0, None, false); (1, 0, None, false);
       (0, 0, Some [34; 97; 98; 99; 100; 92; 110; 34]%N, false);
       (1, 0, None, false); (1, 1, None, false); (1, 0, None, false);
       (0, 0, Some [34; 49; 50; 51; 52; 53; 54; 55; 56; 57; 92; 110; 34]%N, true)],
      Ok kstate0).
+Proof. vm_compute. repeat split; reflexivity. Qed.
+
+(* k8s, max_event_size 12 with cut-off: "abcd" is buffered; the next chunk ef\u0000gh does not fit and
+   the byte limit (5 bytes of it) falls inside \u0000: only "ef" is kept (the code before the repair
+   kept ef\u0, not a JSON string any more); the chunk "z" that follows is NOT glued on; then the
+   same with max_event_size 6, where nothing of \u0000xyz fits: an empty, flagged cut event *)
+Definition ex_cut_chunks : list kin :=
+  [KChunk [34; 97; 98; 99; 100; 34]%N 46;
+   KChunk [34; 101; 102; 92; 117; 48; 48; 48; 48; 103; 104; 34]%N 45;
+   KChunk [34; 122; 34]%N 41; KChunk [34; 119; 92; 110; 34]%N 42].
+Definition ex_cut_chunks2 : list kin :=
+  [KChunk [34; 92; 117; 48; 48; 48; 48; 120; 121; 122; 34]%N 44; KChunk [34; 122; 34]%N 41;
+   KChunk [34; 101; 110; 100; 92; 110; 34]%N 44].
+
+Example c15_k8s_cut_nonvacuous :
+  forallb frag_ok ex_cut_chunks = true /\ forallb frag_wf ex_cut_chunks = true /\
+  escaped_cut_keep [101; 102; 92; 117; 48; 48; 48; 48; 103; 104]%N 5 = Ok 2 /\
+  esc_wf [101; 102; 92; 117; 48]%N = false /\
+  k_run ex_kcfg kstate0 ex_cut_chunks =
+    ([(1, 0, None, false); (1, 1, None, false); (1, 0, None, false);
+      (0, 0, Some [34; 97; 98; 99; 100; 101; 102; 92; 110; 34]%N, true)], Ok kstate0) /\
+  k_run {| kmax := 6; ksplit := 524288; kcut := true; kfield := true; konly := false |} kstate0 ex_cut_chunks2 =
+    ([(1, 1, None, false); (1, 0, None, false); (0, 0, Some [34; 92; 110; 34]%N, true)], Ok kstate0).
 Proof. vm_compute. repeat split; reflexivity. Qed.
